@@ -5,6 +5,7 @@ import (
 	"math"
 	"math/big"
 	"reflect"
+	"regexp"
 	"sort"
 	"strings"
 
@@ -29,6 +30,9 @@ type sfld struct {
 }
 
 var anyType = reflect.TypeOf((*interface{})(nil)).Elem()
+
+// addresses in %#v output differ from run to run
+var addrRe = regexp.MustCompile(`0x[0-9a-f]{6,}`)
 
 func (g *gen) randType(depth int) *gty {
 	r := g.env.Rng
@@ -345,6 +349,11 @@ func canon(v reflect.Value) string {
 			return "GVNil"
 		}
 		return "(GVPtr " + canon(v.Elem()) + ")"
+	case reflect.Func:
+		if v.IsNil() {
+			return "GVNil"
+		}
+		return "GVFunc"
 	case reflect.Bool:
 		return "(GVBool " + Cbool(v.Bool()) + ")"
 	case reflect.String:
@@ -466,7 +475,7 @@ func (g *gen) runCall(in []reflect.Type, ctys []string, variadic bool, js, cq []
 		for _, a := range got {
 			parts = append(parts, fmt.Sprintf("%#v", a.Interface()))
 		}
-		rec = " received " + strings.Join(parts, ", ")
+		rec = " received " + addrRe.ReplaceAllString(strings.Join(parts, ", "), "0x..")
 		if len(rec) > 400 {
 			rec = rec[:400] + "..."
 		}
